@@ -876,6 +876,23 @@ Proof.
 Qed.
 Print Assumptions jouguet_brackets_are_adjacent.
 
+(** the first bracket [Tn, min(max(2Tn, TMaxLowT), TMaxHydro)] is a proper interval inside the
+    hydro window, and the secant fallback is started on the two ends of the bracket reached *)
+Theorem jouguet_first_bracket_and_secant_start : forall e a b,
+  0 < Tnucl e -> Tnucl e < TMaxHydro e ->
+  Tnucl e < snd (jouguet_init e) <= TMaxHydro e /\
+  (2 * Tnucl e <= TMaxHydro e -> 2 * Tnucl e <= snd (jouguet_init e)) /\
+  jouguet_secant_start e a b = (Tnucl e, b) /\ jouguet_brentq_bracket e a b = (Tnucl e, b).
+Proof.
+  intros e a b H0 H1. unfold jouguet_init. cbn [fst snd].
+  pose proof (Rmax_l (2 * Tnucl e) (HydroAdmGen.TMaxLowT e)) as M.
+  repeat split.
+  - apply Rmin_glb_lt; lra.
+  - apply Rmin_r.
+  - intro H2. apply Rmin_glb; lra.
+Qed.
+Print Assumptions jouguet_first_bracket_and_secant_start.
+
 Theorem jouguet_brentq_bracket_has_sign_change : forall e (f : R -> R) n,
   let q := jsearch e f n (jouguet_init e) in
   jouguet_use_brentq e (f (fst q)) (f (snd q)) (fst q) (snd q) = true ->
